@@ -6,7 +6,7 @@
      /repo/src/c/_cffi_backend.c    (SF_PACKED, SF_STD_FIELD_POS)
      /repo/src/c/realize_c_type.c   (flag passed to the per-field size check)
    Do not edit: this committed copy is the snapshot used when the translator fails. *)
-From Coq Require Import ZArith.
+From Coq Require Import ZArith Bool.
 From Cffi Require Import C12.Spec.
 Local Open Scope Z_scope.
 
@@ -24,6 +24,10 @@ Definition gen_const_o : cexpr :=
 
 (* recompiler.py: if check_value > 0: check_value = '%dU' % (check_value,) *)
 Definition gen_check_suffixU (check_value : Z) : bool := Z.gtb check_value 0.
+
+(* recompiler.py: if not (-(1 << 64) < check_value < (1 << 64)): raise VerificationError(...) *)
+Definition gen_check_in_domain (check_value : Z) : bool :=
+  Z.ltb (- (Z.shiftl 1 64)) check_value && Z.ltb check_value (Z.shiftl 1 64).
 
 (* recompiler.py: if (!_cffi_check_int( *o, n, <literal>)) n |= 2; *)
 Definition gen_check_fail_bits : Z := 2.
